@@ -119,7 +119,7 @@ PLANS = {
     },
     "C13": {
         "level": "proof",
-        "sidecars": ["ssbridge", "patching"],
+        "sidecars": ["ssbridge", "patching", "repair"],
         "extras": [],
         "explanation": "update_ss_bridges on 2-4 cysteines with symbolic coordinates, numbering and chains",
     },
